@@ -36,6 +36,7 @@ namespace {
       std::vector<Value> past;
       std::ostringstream os;
       ipr::Printer pp { in.w.lex, os };
+      pp.print_locations = true;                 // every declaration carries a location of this thread's own (file = thread)
       for (int k = 0; k < len; ++k) {
          Value req;
          if (not past.empty() and rng.coin(35)) req = past[static_cast<std::size_t>(rng.below(static_cast<int>(past.size())))];
@@ -66,6 +67,9 @@ namespace {
                os << '}';
             }
             (void)(*static_cast<const ipr::Scope*>(in.w.unit.global_scope()))[id];
+            v->src_locus.file = ipr::File_index{static_cast<std::uint32_t>(1 + t)};
+            v->src_locus.line = ipr::Line_number{static_cast<std::uint32_t>(1000 * (1 + t) + k)};
+            v->src_locus.column = ipr::Column_number{static_cast<std::uint32_t>(1 + t)};
             try { pp << ipr::xpr_decl(*v, true); } catch (const std::logic_error&) { }
          }
          if (rng.coin(20)) std::this_thread::yield();
